@@ -14,6 +14,11 @@ CLI_NOTE = ("CLI correspondence: seeded command histories on real temporary proj
 POOL_NOTE = ("The theorems are about the labelled transition system GwfModel/Pool.lean (labels = the events observable on the real Scheduler). "
              "That asyncio realises only enabled transitions is VALIDATED by trace acceptance on the explored schedules (virtual clock, fake subprocess, instrumented semaphore/state table; fine-grained settling so cancels hit every await point), not proved. ")
 CHECKS = {
+ "C08": dict(
+   text="Theorems (kernel-checked over the code tables regenerated from the source on every run): every documented Slurm squeue code, sacct state name (incl. 'CANCELLED by <uid>'), LSF STAT value, SGE state-letter combination and local pool state is mapped into the category the property names — queued→submitted, executing→running, failure→failed, cancellation→cancelled, success/no record→file-based (slurm_short_classified … local_classified); the live queue always wins over the accounting database (squeue_wins); with accounting off the database content is irrelevant; completed and unknown are treated identically by the scheduling pass; the state of a target depends only on the job with its tracked id, never on other jobs (own_job_only); batching the accounting query partitions the ids in order with batches ≤ batch size, for any number of tracked jobs (batched_eq_unbatched).",
+   note="The documented tables (Cat per code) are hand-curated from the manuals and are the oracle (trusted); suspended/error-queue codes are unconstrained (DESIGN §7-N3); codes missing from gwf's own tables raise KeyError and are not part of the documented set (N1). The correspondence runs the real `gwf status` for EVERY documented code of every backend, queue×accounting combinations, foreign jobs, stale accounting rows, 2100 tracked jobs (observing each sacct call's id count), transitions across invocations and a restarted local pool.",
+   technique="Lean 4 proof (decide over regenerated finite tables lifted by list lemmas; batching induction) + exhaustive differential correspondence through the CLI",
+   design="§6-C08"),
  "C07": dict(
    text="Theorems: for every list of well-formed ids (any length) the scheduler-side reader recovers exactly the ids gwf renders — Slurm afterok:a:b (read_render_slurm), SGE -hold_jid a,b (read_render_sge), local task ids; no prerequisites ⇒ no flag; LSF done() conjunctions as kernel-checked instances; for any digit string the id stored from 'digits\\n' (sbatch --parsable, qsub -terse) is the digits, newline stripped, and well-formed (parseId_slurm_sge); a target with a backend state is tracked and an accepted submission tracks the returned id, so the prerequisite ids are exactly the tracked ids of the named dependencies (prereq_ids_exact); for EVERY reachable state of an abstract scheduler with afterok/done semantics a started job's prerequisites all completed, with hold semantics they all left the queue (no_early_start_afterok / _hold, inductive invariant over all label sequences).",
    note=CLI_NOTE + "The abstract scheduler (Sch.clStep) encodes the documented semantics of afterok, -hold_jid and done(); real schedulers are not available (trusted). The general LSF read∘render theorem is not proved (instances only, partial). Local pool: a fake pool server records the real client's enqueue messages; the scheduler side is the C11 trace engine.",
